@@ -100,7 +100,7 @@ impl Check for C17 {
     fn total_cases(&self, tier: Tier) -> u64 {
         match tier {
             Tier::Quick => 200_000,
-            Tier::Thorough => 5_000_000,
+            Tier::Thorough => 15_000_000,
         }
     }
     fn strategy(&self, _tier: Tier) -> BoxedStrategy<SCase> {
